@@ -17,7 +17,15 @@ RULE = ("kind sim: a parent screen (1-5 plates, plate-uniform masks, observation
         "bit patterns and masks, plate ids, plate mapping and the six metadata counters are compared with the extracted model. "
         "kind ctor: the constructor alone on rows with uniform / mixed plates, observations and mask given or not.  Nothing compared "
         "or predicated depends on sample / treatment ids.  Non-trivial: >= 1 operation (sim) or >= 2 rows (ctor); distinct by "
-        "canonical description.")
+        "canonical description.  Every fourth parent carries the plate names the real preparation produces (initial_plate, unobserved_pl, "
+        "generated_plate_10 / _2 / _1: string order, not numeric).  Predicates added by the gap round: the reveal guards PER PLATE "
+        "(an accepted reveal must not newly observe an all-zero plate: KNOWN finding reveal-zero-guard-is-joint; a refusal is "
+        "justified by any named all-zero / NaN plate); the three plate counters recomputed from plate names and mask alone (no Plate API) "
+        "for every screen of the history and for screen_metadata.json; purity: after every returned screen all earlier screens of the "
+        "history are re-read and must be unchanged (set_observed excepted).  40 further sim cases use parents whose plate NAMES are integer "
+        "literals that differ from the plate ids (\"1\"..\"12\" in string order, 1-based, descending, zero-padded) with reveal_plate CLI / "
+        "extract_screen_metadata CLI operations: `--plate-id 2 5` must observe exactly the plates with IDS 2 and 5 and the reported counter "
+        "must drop by the number of newly revealed plates.")
 THEOREMS = {
     "C12_atomic_invariant": "every screen reached from a constructed screen by any history of reveal/mask/unmask/save+load (any variant) has a plate-uniform mask",
     "C12_atomic_invariant_lifecycle": "the same for both halves of any hold-out split",
@@ -48,6 +56,12 @@ THEOREMS = {
     "C12_reveal_refuses_zero": "selected values all zero (+0.0 / -0.0; incl. no row selected) => Err 8",
     "C12_reveal_refuses_unknown": "ids that name no plate of the screen (incl. the empty list) => Err 8",
     "C12_reveal_refuses_nan": "selected values contain a NaN => Err 9",
+    "C12_reveal_refuses_nan_per_plate": "PER PLATE: one named plate whose stored values contain a NaN => the whole reveal is refused (Err 9)",
+    "C12_reveal_refuses_zero_every_plate_partial": "PER PLATE, the part that holds: every named plate all zero (or absent) => Err 8",
+    "C12_reveal_refuses_zero_per_plate_refuted": "the clause 'revealing refuses plates whose stored values are all zero' read per plate is FALSE of the translated "
+                                                 "source: witness = constructed screen, unobserved non-empty all-zero plate 0 (alone: Err 8) named together with "
+                                                 "plate 1 (0.5, 0.25): src_reveal_plates returns a screen in which plate 0 is observed (the guard is np.all over "
+                                                 "the UNION of the selected rows; KNOWN_FINDINGS reveal-zero-guard-is-joint replays it on the implementation)",
     "C12_mask_exact": "mask = Ok: all rows unobserved, everything else unchanged",
     "C12_unmask_exact": "unmask = Ok: all rows observed, everything else unchanged",
     "C12_save_load_exact": "save+load = Ok: rows (incl. mask and values), plate ids, plate mapping unchanged",
@@ -102,6 +116,7 @@ EXPLANATION = ("Model: Model/Reveal.v (reveal_plates incl. guards, mask_screen, 
 THEOREMS.update({
     'C12_model_is_source_cli_reveal_plate': 'the translation of the whole function reveal_plate.main regenerated on this run equals, for every record L of library functions and all parsed arguments, Cli.cli_reveal_plate: reveal_plates(load(--screen), --plate-id list) saved to --output',
     'C12_model_is_source_cli_extract_screen_metadata': "the translation of the whole function extract_screen_metadata.main regenerated on this run equals Cli.cli_extract_screen_metadata: the JSON object's counters - every plate of the loaded screen counted once, as observed or as unobserved - next to n_unique_samples, n_unique_treatments, size, n_plates",
+    'C12_model_is_source_cli_extract_screen_metadata_counters': "instance with the library record filled by the TRANSLATED Screen.plates / ScreenBase.is_observed / n_plates / n_unique_samples / n_unique_treatments / size: on a constructed screen the written JSON counters are Model/Reveal.v's n_plates / n_unobserved_plates / n_observed_plates (the ones C12_unobserved_drop is about), size = number of rows",
     'C12_model_is_source_cli_reveal_plate_reveal': "instance over Model/Reveal.v with the library call standing for the TRANSLATED reveal_plates: the translated main = load, the model's reveal_plates (mappings carried), save",
 })
 EXPLANATION += ("  CLI wrappers: reveal_plate.main and extract_screen_metadata.main are re-translated as WHOLE functions on every run (Generated/SrcCli.v) and proved equal to Model/Cli.v.  These links trust the translator harness/py2gal.py (for these links extended by cfg typed_effects, kwcalls keys `module.function`, state_calls assigned to a tuple), the representation of Model/Cli.v (parsed arguments = a record of the plain argparse results, get_args() not translated = the primitive `get_args()` yielding that record; a main() denotes the list of (path, content) files it writes; `L` = ANY record of library functions over abstract types) and EXACTLY these primitives of harness/src_functions.py, each one field read / one library or constructor call standing for the function of that name (whose own link, where it exists, is the one of its property): CLI_REVEAL_PLATE: the fields of `args` read as the record's projections (a store to one is refused); ignored: log_config.configure_logging(args), logger.info/warning; Screen.load_h5(p), reveal_plates(s, ids), typed effect r.save_h5(p). CLI_EXTRACT_METADATA: the fields of `args` read as the record's projections (a store to one is refused); ignored: log_config.configure_logging(args), logger.info/warning; Screen.load_h5(p), s.plates, p.is_observed, s.n_unique_samples, s.n_unique_treatments, s.size, s.n_plates, the dict literal with exactly the six keys n_unique_samples, n_unique_treatments, size, n_plates, n_unobserved_plates, n_observed_plates = the record of their values, open(p, 'w'), typed effect json.dump(o, f, indent=4) = append (f, o); the counting loop is translated. ")
@@ -109,6 +124,45 @@ EXPLANATION += ("  CLI wrappers: reveal_plate.main and extract_screen_metadata.m
 
 def _view(s):
     return [sl.canon_rows(s), [int(x) for x in s.plate_ids], sl.canon_nmap(s.plate_mapping), simlib.metadata(s)]
+
+
+WATCHED = ["observation_mask", "observations", "plate_names", "plate_ids", "sample_names", "sample_ids", "treatment_names", "treatment_doses",
+           "treatment_ids"]
+
+
+class Watch:
+    """the canonicaliser handed to simlib.run_history, which calls it on parent / train / test and on the screen every
+    successful operation returns.  It keeps every screen object of the history with copies of its arrays and, at each call,
+    re-reads all EARLIER screens: mask / unmask / reveal / save / load must leave their argument and every ancestor as
+    they were (an operation that writes its result into the arrays of the screen it was given changes experiments the
+    caller still holds).  Screen.set_observed is the one in-place operation: it returns the same object, and derived
+    screens share its observation array, so a call on an already known object refreshes the copies instead."""
+
+    def __init__(self):
+        self.live = []     # (screen object, {attr: copy})
+        self.diffs = []
+
+    @staticmethod
+    def _copy(s):
+        import numpy as np
+        return {a: np.array(getattr(s, a), copy=True) for a in WATCHED}
+
+    def __call__(self, s):
+        import numpy as np
+        known = any(o is s for o, _ in self.live)
+        if known:
+            self.live = [(o, self._copy(o)) for o, _ in self.live]
+        else:
+            for n, (o, cp) in enumerate(self.live):
+                for a in WATCHED:
+                    cur = np.asarray(getattr(o, a))
+                    same = cur.shape == cp[a].shape and (np.array_equal(cur, cp[a], equal_nan=True) if cur.dtype.kind == "f" else np.array_equal(cur, cp[a]))
+                    if not same:
+                        self.diffs.append("screen #%d of the history (0 parent, 1 train, 2 test, then one per returned screen) had its %s changed "
+                                          "by a later mask / unmask / reveal / save / load: %r -> %r" % (n, a, cp[a].tolist(), cur.tolist()))
+                        cp[a] = cur.copy()
+            self.live.append((s, self._copy(s)))
+        return _view(s)
 
 
 def _uniform(mask, plates):
@@ -131,13 +185,53 @@ def _same_rows(a, b, what):
     return None
 
 
+def _zero_plates(b, ids):
+    """plate ids named in ids, present in the screen, whose stored values are ALL zero (+0.0 / -0.0)"""
+    out = []
+    for p in sorted(set(b["pids"]) & set(ids)):
+        if all(sl.bits_obs(v) == 0 for v, q in zip(b["obs"], b["pids"]) if q == p):
+            out.append(p)
+    return out
+
+
+def _counters(snap):
+    """[n_plates, n_unobserved, n_observed] recomputed from the snapshot's plate names and mask alone (no Plate / plates API):
+    a plate counts as observed iff every one of its rows is (Plate.is_observed)"""
+    by = {}
+    for p, m in zip(snap["plates"], snap["mask"]):
+        by[p] = by.get(p, True) and m
+    return [len(by), sum(1 for v in by.values() if not v), sum(1 for v in by.values() if v)]
+
+
+def _pred_joint(desc, h):
+    """clause 6 read per plate (KNOWN_FINDINGS reveal-zero-guard-is-joint): an accepted reveal must not newly observe a
+    plate whose stored values are all zero.  Evaluated after every other clause, so that it never hides another violation."""
+    for k, (o, before, after, err, extra) in enumerate(h["events"]):
+        if o[0] not in ("reveal", "cli_reveal") or err is not None or after is None:
+            continue
+        b = extra.get("loaded", before)
+        for p in _zero_plates(b, set(o[1])):
+            was = [m for m, q in zip(b["mask"], b["pids"]) if q == p]
+            now = [m for m, q in zip(after["mask"], after["pids"]) if q == p]
+            if not all(was) and all(now):
+                return ("[reveal-zero-guard-is-joint] op %d %r: plate id %d holds only zeros (%d rows) and was unobserved; named together with "
+                        "plates holding non-zero values it was revealed instead of refused" % (k, o[:2], p, len(was)))
+    return None
+
+
 def _pred(desc, h):
+    return _pred_strict(desc, h) or _pred_joint(desc, h)
+
+
+def _pred_strict(desc, h):
     if h["contract"]:
         return "[rng-contract] " + h["contract"]
     for nm in ("parent", "train", "test"):
         s = h["snaps"][nm]
         if not _uniform(s["mask"], s["plates"]):
             return "[atomic] the %s screen has a plate with mixed observation status" % nm
+        if [s["meta"][1], s["meta"][2], s["meta"][3]] != _counters(s):
+            return "[metadata] the %s screen reports n_plates / n_unobserved / n_observed = %r, its rows give %r" % (nm, s["meta"][1:4], _counters(s))
     for k, (o, before, after, err, extra) in enumerate(h["events"]):
         t = o[0]
         where = "op %d %r (history %r)" % (k, o[:2], [x[:2] for x in desc["ops"][:k + 1]])
@@ -157,8 +251,9 @@ def _pred(desc, h):
             refuse_nan = any(_isnan_bits(v) for v in vals)
             exp = [m or s_ for m, s_ in zip(b["mask"], selected)]
             exp_uniform = _uniform(exp, b["plates"])
+            zero_plates = _zero_plates(b, ids)
             if err is not None:
-                if not (refuse_zero or refuse_nan) and exp_uniform:
+                if not (refuse_zero or refuse_nan or zero_plates) and exp_uniform:
                     return "[reveal-refuses] %s: refused a selection with a non-zero, NaN-free value: %r" % (where, err)
                 continue
             if refuse_zero or refuse_nan:
@@ -218,17 +313,72 @@ def _pred(desc, h):
                 return "[set-observed] %s: changed something else" % where
         if after is not None and t != "setobs" and not _uniform(after["mask"], after["plates"]):
             return "[atomic] %s: a plate has mixed observation status afterwards" % where
+        if after is not None and [after["meta"][1], after["meta"][2], after["meta"][3]] != _counters(after):
+            return "[metadata] %s: the screen reports n_plates / n_unobserved / n_observed = %r, its rows give %r" % (where, after["meta"][1:4], _counters(after))
+        if t == "meta_cli" and err is None and extra.get("cli_meta") is not None and list(extra["cli_meta"][1:4]) != _counters(after):
+            return "[metadata] %s: screen_metadata.json counters %r, the rows give %r" % (where, extra["cli_meta"][1:4], _counters(after))
     return None
+
+
+LIFECYCLE_PLATES = ["initial_plate", "unobserved_pl", "generated_plate_2", "generated_plate_10", "generated_plate_1", "merged_0_3", "holdout"]
+
+
+def _lifecycle_names(rng, parent):
+    """the plate names the real preparation produces (SparseCover's 'initial_plate' and its truncated 'unobserved_pl', the generators'
+    'generated_plate_<n>' whose string order is not the numeric one: ids are ranks of NAMES, 10 < 2): reveals on such screens
+    address plates by ids that follow the string order"""
+    old = sorted({r["p"] for r in parent["rows"]})
+    new = rng.sample(LIFECYCLE_PLATES, len(old))
+    ren = dict(zip(old, new))
+    return dict(parent, rows=[dict(r, p=ren[r["p"]]) for r in parent["rows"]])
+
+
+def _numeric_parent(rng):
+    style = rng.choice(["twelve", "one_based", "one_based", "descending", "offset", "padded"])
+    n_pl = 12 if style == "twelve" else rng.choice([2, 3, 4, 5, 6])
+    if style in ("twelve", "one_based"):
+        names = [str(i + 1) for i in range(n_pl)]
+    elif style == "descending":
+        names = [str(n_pl - 1 - i) for i in range(n_pl)]
+        names = [str(int(x) + 1) for x in names] if rng.random() < 0.5 else names
+    elif style == "offset":
+        off = rng.choice([2, 7, 9, 98])
+        names = [str(i + off) for i in range(n_pl)]
+    else:
+        names = ["%02d" % (i + 1) for i in range(n_pl)]
+    rng.shuffle(names)
+    observed = set(rng.sample(names, rng.choice([0, 1, 1, 2]) if n_pl > 2 else 0))
+    rows = []
+    for p in names:
+        for _ in range(rng.choice([1, 1, 2])):
+            rows.append(dict(s=rng.choice(["a", "b", "c"]), p=p, t=[[rng.choice(["x", "y", "z"]), rng.choice([1.0, 2.0])]],
+                             o=rng.choice(simlib.OBS), m=p in observed))
+    rng.shuffle(rows)
+    return dict(rows=rows, arity=1, ctrl="", obs_given=True, mask_given=True, tmap=None, smap=None)
 
 
 def gen(rng, tier):
     N = 1 if tier == "quick" else 10
     for i in range(300 * N):
         parent = simlib.gen_parent(rng, small=(i % 5 == 0))
+        if i % 4 == 3:
+            parent = _lifecycle_names(rng, parent)
         fraction = rng.choice([0.0, 0.1, 0.3, 0.5, 0.5, 0.7, 1.0, 1.0])
         test = rng.random() < (0.08 if fraction == 0.0 else 0.3)
         yield dict(kind="sim", parent=parent, fraction=fraction, seed=rng.randrange(10 ** 6), test=test,
                    ops=simlib.gen_ops(rng, with_setobs=True, cli=(rng.random() < 0.5)))
+    # plate NAMES that are integer literals different from the plate IDS (ids = ranks of the names in string order: "1" "10" "11"
+    # "12" "2" ...; 1-based names; names in descending order): `--plate-id 2 5` must reveal the plates with IDS 2 and 5
+    for i in range(40 * N):
+        parent = _numeric_parent(rng)
+        n_pl = len({r["p"] for r in parent["rows"]})
+        ops = []
+        for _ in range(rng.choice([1, 1, 2, 3])):
+            ids = rng.sample(range(n_pl), min(n_pl, rng.choice([1, 2, 2, 3])))
+            ops.append([rng.choice(["cli_reveal", "cli_reveal", "reveal"]), ids])
+            if rng.random() < 0.5:
+                ops.append(["meta_cli"])
+        yield dict(kind="sim", parent=parent, fraction=rng.choice([0.0, 0.0, 0.0, 0.5]), seed=rng.randrange(10 ** 6), test=False, ops=ops[:6])
     for i in range(120 * N):
         ctrl = rng.choice(sl.CTRLS)
         rows, a = sl.gen_rows(rng, ctrl=ctrl, uniform_plates=(rng.random() < 0.5))
@@ -272,13 +422,20 @@ def _features(desc, h):
                 f.append("newly_revealed")
         if o[0] == "setobs" and after is not None and not _uniform(after["mask"], after["plates"]):
             f.append("setobs_breaks_plate")
+    try:
+        if any(int(pn) != pi for pn, pi in zip(S["plates"], S["pids"])):
+            f.append("numeric_plate_names_differ_from_ids")
+    except ValueError:
+        pass
     return sorted(set(f))
 
 
 def run(desc):
     if desc["kind"] == "sim":
-        h = simlib.run_history(desc, _view)
-        return dict(wire=[0, simlib.wire_sim(desc, h)], impl=dict(h["start"], stages=h["stages"]), pred=_pred(desc, h),
+        w = Watch()
+        h = simlib.run_history(desc, w)
+        return dict(wire=[0, simlib.wire_sim(desc, h)], impl=dict(h["start"], stages=h["stages"]),
+                    pred=_pred_strict(desc, h) or ("[purity] " + w.diffs[0] if w.diffs else None) or _pred_joint(desc, h),
                     features=_features(desc, h), cmp=simlib.cmp_sim)
     if desc["kind"] == "ctor":
         s = impl_call(sl.build, desc)
